@@ -1,4 +1,18 @@
+//! Engine entry points, routing and hot reload: C16, C17, C23 — see DESIGN.md §3.
+
+mod c16;
+mod c17;
+mod c23;
+mod common;
+
 fn main() {
     let args = mc::parse_args();
-    mc::machinery_error(&format!("{} is not built yet", args.prop));
+    common::self_test();
+    mc::quiet_panics();
+    match args.prop.as_str() {
+        "C16" => c16::main(&args),
+        "C17" => c17::main(&args),
+        "C23" => c23::main(&args),
+        other => mc::machinery_error(&format!("h_engine serves C16, C17 and C23, not {other}")),
+    }
 }
